@@ -180,3 +180,11 @@ func genFieldArgs(t *rapid.T, roles []int, n int) []string {
 }
 
 var allRoles = []int{0, 1, 2, 3, 4, 5, 6}
+
+// genTZ draws the process-local zone of a case: UTC half of the time, else one of the fixed non-UTC offsets.
+func genTZ(t *rapid.T) int {
+	if coin(t, "utc") {
+		return 0
+	}
+	return pick(t, "zone", zones)
+}
